@@ -102,6 +102,10 @@ pub fn enter(opts: &Options) -> Result<(), String> {
     for d in ["agent/logs", "agent/events", "agent/keys", "bin", "etc", "tmp", "status"] {
         std::fs::create_dir_all(format!("{}/{}", RUN_ROOT, d)).map_err(|e| e.to_string())?;
     }
+    // the agent's status folder is hard-coded under /var/log
+    if std::path::Path::new("/var/log").exists() {
+        mount("tmpfs", "/var/log", Some("tmpfs"), 0, Some("size=256m,mode=755"))?;
+    }
     sh("ip", &["link", "set", "lo", "up"])?;
     for a in ["168.63.129.16/32", "169.254.169.254/32", "10.99.0.1/32"] {
         sh("ip", &["addr", "add", a, "dev", "lo"])?;
